@@ -190,6 +190,7 @@ let parse_value (t : string) : value =
   match k with
   | "s" -> VStr (unhex x) | "n" -> VNum (n_of_int (int_of_string x))
   | "b" -> VBool (x = "1") | "c" -> VChr (n_of_int (int_of_string x))
+  | "i" -> let v = int_of_string x in VInt (v < 0, n_of_int (abs v))
   | _ -> failwith "value"
 
 let parse_set_tokens (toks : string list) : cset =
@@ -219,7 +220,9 @@ let parse_set_tokens (toks : string list) : cset =
       | k -> let l = opt_hex (next ()) in
              let s = (match next () with "~" -> None | c -> Some (n_of_int (int_of_string c))) in
              if k = "O" then KOpt (l, s) else KFlag (l, s) in
-    let ty = match next () with "S" -> TStr | "U" -> TU8 | "B" -> TBool | "C" -> TChar | _ -> failwith "ty" in
+    let ty = match next () with "S" -> TStr | "U" -> TU8 | "B" -> TBool | "C" -> TChar
+      | t when String.length t > 2 && t.[0] = 'I' -> TInt (t.[1] = 's', n_of_int (int_of_string (String.sub t 2 (String.length t - 2))))
+      | _ -> failwith "ty" in
     let optional = next () = "1" in
     let dflt = match next () with
       | "~" -> DNone | "s" -> DStr (unhex (next ())) | "v" -> DVal (parse_value (next ())) | _ -> failwith "default" in
@@ -248,6 +251,7 @@ let decl_sets : cset array Lazy.t = lazy (
 let value_str = function
   | VStr s -> "s:" ^ hex s | VNum n -> "n:" ^ string_of_int (int_of_n n)
   | VBool b -> "b:" ^ (if b then "1" else "0") | VChr c -> "c:" ^ string_of_int (int_of_n c)
+  | VInt (neg, n) -> "i:" ^ (if neg then "-" else "") ^ string_of_int (int_of_n n)
 let rec canon (t : tval) : string =
   match t with
   | TV (name, fields, sub) ->
